@@ -4,6 +4,7 @@ import itertools as it
 from montepy.errors import *
 from montepy.constants import (
     BLANK_SPACE_CONTINUE,
+    TABSIZE,
     get_max_line_length,
     rel_tol,
     abs_tol,
@@ -204,17 +205,12 @@ class MCNP_Object(ABC):
             initial_indent = 0
         else:
             initial_indent = indent_length
-        wrapper = textwrap.TextWrapper(
-            width=line_length,
-            initial_indent=" " * initial_indent,
-            subsequent_indent=" " * indent_length,
-            drop_whitespace=False,
-            break_on_hyphens=False,
-        )
         ret = []
         for line in strings:
             if line.strip():
-                buffer = wrapper.wrap(line)
+                buffer = MCNP_Object._wrap_line(
+                    line, line_length, " " * initial_indent, " " * indent_length
+                )
                 if len(buffer) > 1:
                     warning = LineExpansionWarning(
                         f"The line exceeded the maximum length allowed by MCNP, and was split. The line was:\n{line}"
@@ -228,6 +224,73 @@ class MCNP_Object(ABC):
                         stacklevel=2,
                     )
                 ret += buffer
+        return ret
+
+    @staticmethod
+    def _is_comment_line(line):
+        """
+        Whether MCNP reads this (tab free) line as a ``C`` comment line:
+        a ``c`` in the first five columns, preceded only by blanks, and followed by a blank or the end of the line.
+
+        :param line: the line to analyze, without its line ending.
+        :type line: str
+        :rtype: bool
+        """
+        start = len(line) - len(line.lstrip(" "))
+        return (
+            start < BLANK_SPACE_CONTINUE
+            and line[start : start + 1] in ("c", "C")
+            and line[start + 1 : start + 2] in ("", " ")
+        )
+
+    @staticmethod
+    def _wrap_line(line, line_length, initial_indent, subsequent_indent):
+        """
+        Wraps one line of an input so that no piece is longer than ``line_length``.
+
+        Data are continued on lines starting with ``subsequent_indent``.
+        Comments stay comments: a ``C`` comment line is continued as further ``C`` comment lines,
+        and a ``$`` comment that does not fit behind its data is moved to continuation lines of its own
+        that each start with ``$``.
+
+        :param line: the line to wrap, without its line ending.
+        :type line: str
+        :param line_length: the maximum number of characters in a line.
+        :type line_length: int
+        :param initial_indent: the prefix for the first line.
+        :type initial_indent: str
+        :param subsequent_indent: the prefix for the continuation lines.
+        :type subsequent_indent: str
+        :returns: the lines to write.
+        :rtype: list
+        """
+        line = line.expandtabs(TABSIZE)
+
+        def wrap(text, first, rest):
+            wrapper = textwrap.TextWrapper(
+                width=line_length,
+                initial_indent=first,
+                subsequent_indent=rest,
+                drop_whitespace=False,
+                break_on_hyphens=False,
+            )
+            return wrapper.wrap(text)
+
+        if MCNP_Object._is_comment_line(line):
+            if len(line) <= line_length:
+                return [line]
+            start = len(line) - len(line.lstrip(" "))
+            return wrap(line, "", line[: start + 1] + " ")
+        if len(initial_indent) + len(line) <= line_length:
+            return [initial_indent + line]
+        data, dollar, comment = line.partition("$")
+        ret = wrap(data, initial_indent, subsequent_indent)
+        if dollar:
+            comment = dollar + comment
+            if ret and len(ret[-1]) + len(comment) <= line_length:
+                ret[-1] += comment
+            else:
+                ret += wrap(comment, subsequent_indent, subsequent_indent + "$ ")
         return ret
 
     def validate(self):
